@@ -4,6 +4,7 @@
   (compression function) and CC/Blake/MsgLemmas.lean (block buffer, counter, padding, message level).
 -/
 import CC.Blake.MsgLemmas
+import CC.Blake.Src
 namespace CC.Thm.C04
 open CC CC.Simd CC.Blake
 
@@ -110,5 +111,74 @@ example : okVal (digest Mach.ref .debug .b384 (List.replicate 144 0x00#8)) = som
 example : Spec.blake .b512 [0x00#8] = [0x97#8, 0x96#8, 0x15#8, 0x87#8, 0xf6#8, 0xd9#8, 0x70#8, 0xfa#8, 0xba#8, 0x6d#8, 0x24#8, 0x78#8, 0x04#8, 0x5d#8, 0xe6#8, 0xd1#8, 0xfa#8, 0xbd#8, 0x09#8, 0xb6#8, 0x1a#8, 0xe5#8, 0x09#8, 0x32#8, 0x05#8, 0x4d#8, 0x52#8, 0xbc#8, 0x29#8, 0xd3#8, 0x1b#8, 0xe4#8, 0xff#8, 0x91#8, 0x02#8, 0xb9#8, 0xf6#8, 0x9e#8, 0x2b#8, 0xbd#8, 0xb8#8, 0x3b#8, 0xe1#8, 0x3d#8, 0x4b#8, 0x9c#8, 0x06#8, 0x09#8, 0x1e#8, 0x5f#8, 0xa0#8, 0xb4#8, 0x8b#8, 0xd0#8, 0x81#8, 0xb6#8, 0x34#8, 0x05#8, 0x8b#8, 0xe0#8, 0xec#8, 0x49#8, 0xbe#8, 0xb3#8] := by decide +kernel
 example : Spec.blake .b512 (List.replicate 144 0x00#8) = [0x31#8, 0x37#8, 0x17#8, 0xd6#8, 0x08#8, 0xe9#8, 0xcf#8, 0x75#8, 0x8d#8, 0xcb#8, 0x1e#8, 0xb0#8, 0xf0#8, 0xc3#8, 0xcf#8, 0x9f#8, 0xc1#8, 0x50#8, 0xb2#8, 0xd5#8, 0x00#8, 0xfb#8, 0x33#8, 0xf5#8, 0x1c#8, 0x52#8, 0xaf#8, 0xc9#8, 0x9d#8, 0x35#8, 0x8a#8, 0x2f#8, 0x13#8, 0x74#8, 0xb8#8, 0xa3#8, 0x8b#8, 0xba#8, 0x79#8, 0x74#8, 0xe7#8, 0xf6#8, 0xef#8, 0x79#8, 0xca#8, 0xb1#8, 0x6f#8, 0x22#8, 0xce#8, 0x1e#8, 0x64#8, 0x9d#8, 0x6e#8, 0x01#8, 0xad#8, 0x95#8, 0x89#8, 0xc2#8, 0x13#8, 0x04#8, 0x5d#8, 0x54#8, 0x5d#8, 0xde#8] := by decide +kernel
 example : okVal (digest Mach.ref .debug .b512 (List.replicate 144 0x00#8)) = some [0x31#8, 0x37#8, 0x17#8, 0xd6#8, 0x08#8, 0xe9#8, 0xcf#8, 0x75#8, 0x8d#8, 0xcb#8, 0x1e#8, 0xb0#8, 0xf0#8, 0xc3#8, 0xcf#8, 0x9f#8, 0xc1#8, 0x50#8, 0xb2#8, 0xd5#8, 0x00#8, 0xfb#8, 0x33#8, 0xf5#8, 0x1c#8, 0x52#8, 0xaf#8, 0xc9#8, 0x9d#8, 0x35#8, 0x8a#8, 0x2f#8, 0x13#8, 0x74#8, 0xb8#8, 0xa3#8, 0x8b#8, 0xba#8, 0x79#8, 0x74#8, 0xe7#8, 0xf6#8, 0xef#8, 0x79#8, 0xca#8, 0xb1#8, 0x6f#8, 0x22#8, 0xce#8, 0x1e#8, 0x64#8, 0x9d#8, 0x6e#8, 0x01#8, 0xad#8, 0x95#8, 0x89#8, 0xc2#8, 0x13#8, 0x04#8, 0x5d#8, 0x54#8, 0x5d#8, 0xde#8] := by decide +kernel
+
+/-- **Source tie.**  `round32`, `round64`, `diagonalize`, `undiagonalize` of hashes/blake/src/lib.rs, as TRANSLATED
+    from the Rust source on every run (tools/inventory_kernels.py → `CC.Gen.Kernels`), equal the model's
+    `roundV` / `diagonalize` / `undiagonalize` at the two vector types with the rotation distances of
+    `cp32` / `cp64`; the tables of consts.rs (`PADDING`, `SIGMA`, `BLAKE256_U`, `BLAKE512_U`, the four IVs) equal
+    the model's; the arguments of the `define_compressor!` / `define_hasher!` invocations (round counts 14 / 16,
+    block sizes, digest bits and bytes, which U table / IV / round function) are those of the model's
+    `cp32`, `cp64`, `kit224` … `kit512`.  Individual facts: `CC.Src.src_blake_*` (lean/CC/Blake/Src.lean). -/
+theorem source_kernels_match :
+    CC.Gen.Kernels.blake_errors = [] ∧
+    ((fun M => roundV (vops32 M) cp32) =
+      fun M x m0 m1 => CC.Src.rowsOf (CC.Gen.Kernels.blake_round32 M x.a x.b x.c x.d m0 m1)) ∧
+    ((fun M => roundV (vops64 M) cp64) =
+      fun M x m0 m1 => CC.Src.rowsOf (CC.Gen.Kernels.blake_round64 M x.a x.b x.c x.d m0 m1)) ∧
+    ((fun M => CC.Blake.diagonalize (vops32 M)) =
+      fun M x => CC.Src.rowsOf (CC.Gen.Kernels.blake_diagonalize32 M x.a x.b x.c x.d)) ∧
+    ((fun M => CC.Blake.undiagonalize (vops32 M)) =
+      fun M x => CC.Src.rowsOf (CC.Gen.Kernels.blake_undiagonalize32 M x.a x.b x.c x.d)) ∧
+    ((fun M => CC.Blake.diagonalize (vops64 M)) =
+      fun M x => CC.Src.rowsOf (CC.Gen.Kernels.blake_diagonalize64 M x.a x.b x.c x.d)) ∧
+    ((fun M => CC.Blake.undiagonalize (vops64 M)) =
+      fun M x => CC.Src.rowsOf (CC.Gen.Kernels.blake_undiagonalize64 M x.a x.b x.c x.d)) ∧
+    PADDING = CC.Gen.Kernels.blake_PADDING ∧ SIGMA = CC.Gen.Kernels.blake_SIGMA ∧
+    BLAKE256_U = CC.Gen.Kernels.blake_BLAKE256_U ∧ BLAKE512_U = CC.Gen.Kernels.blake_BLAKE512_U ∧
+    BLAKE224_IV = CC.Src.iv32Of CC.Gen.Kernels.blake_BLAKE224_IV ∧
+    BLAKE256_IV = CC.Src.iv32Of CC.Gen.Kernels.blake_BLAKE256_IV ∧
+    BLAKE384_IV = CC.Src.iv64Of CC.Gen.Kernels.blake_BLAKE384_IV ∧
+    BLAKE512_IV = CC.Src.iv64Of CC.Gen.Kernels.blake_BLAKE512_IV ∧
+    CC.Gen.Kernels.blake_define_compressor =
+      [("Compressor256", "vec128_storage", "u32", (kit256 Mach.ref).buf, "BLAKE256_U", cp32.rounds, "round32", "u32x4"),
+       ("Compressor512", "vec256_storage", "u64", (kit512 Mach.ref).buf, "BLAKE512_U", cp64.rounds, "round64", "u64x4")] ∧
+    CC.Gen.Kernels.blake_define_hasher =
+      [("Blake224", "u32", (kit224 Mach.ref).buf, (kit224 Mach.ref).buf, (kit224 Mach.ref).bits,
+          (kit224 Mach.ref).outBytes, "Compressor256", "BLAKE224_IV"),
+       ("Blake256", "u32", (kit256 Mach.ref).buf, (kit256 Mach.ref).buf, (kit256 Mach.ref).bits,
+          (kit256 Mach.ref).outBytes, "Compressor256", "BLAKE256_IV"),
+       ("Blake384", "u64", (kit384 Mach.ref).buf, (kit384 Mach.ref).buf, (kit384 Mach.ref).bits,
+          (kit384 Mach.ref).outBytes, "Compressor512", "BLAKE384_IV"),
+       ("Blake512", "u64", (kit512 Mach.ref).buf, (kit512 Mach.ref).buf, (kit512 Mach.ref).bits,
+          (kit512 Mach.ref).outBytes, "Compressor512", "BLAKE512_IV")] :=
+  ⟨CC.Src.src_blake_clean, CC.Src.src_blake_round32, CC.Src.src_blake_round64, CC.Src.src_blake_diagonalize32,
+   CC.Src.src_blake_undiagonalize32, CC.Src.src_blake_diagonalize64, CC.Src.src_blake_undiagonalize64,
+   CC.Src.src_blake_PADDING, CC.Src.src_blake_SIGMA, CC.Src.src_blake_U256, CC.Src.src_blake_U512,
+   CC.Src.src_blake_IV224, CC.Src.src_blake_IV256, CC.Src.src_blake_IV384, CC.Src.src_blake_IV512,
+   CC.Src.src_blake_define_compressor.1, CC.Src.src_blake_define_hasher.1⟩
+
+/-- **Source tie, macro bodies.**  `$X4::put_block` (the body of `define_compressor!`: big-endian message words, `u`, the
+    `t` xor, the `for sigma in &SIGMA[..$rounds]` loop with the local macros `m0!` / `m1!`, the final xor) for both
+    instantiations, and `increase_count` (body of `define_hasher!`) for all four, as TRANSLATED from the Rust on every
+    run (tools/inventory_kernels_code.py → `CC.Gen.Kernels`), equal the model's `putBlock` / `increaseCount`.
+    Individual facts: `CC.Src.src_blake_put_block_*`, `CC.Src.src_blake_increase_count_*` (lean/CC/Blake/Src.lean).
+    Not translated: `update` / `finalize_into_dirty` (closures over `BlockBuffer`). -/
+theorem source_code_match :
+    CC.Gen.Kernels.blake_errors = [] ∧
+    (∀ (M : Mach) (c : Compressor (BitVec 128)) (block : List (BitVec 8)) (t : BitVec 32 × BitVec 32),
+      putBlock (vops32 M) cp32 c block t =
+        CC.Src.compOf (CC.Gen.Kernels.blake_put_block_u32x4 M c.h0 c.h1 block t.1 t.2)) ∧
+    (∀ (M : Mach) (c : Compressor (BitVec 256)) (block : List (BitVec 8)) (t : BitVec 64 × BitVec 64),
+      putBlock (vops64 M) cp64 c block t =
+        CC.Src.compOf (CC.Gen.Kernels.blake_put_block_u64x4 M c.h0 c.h1 block t.1 t.2)) ∧
+    (∀ (p : Profile) (t : BitVec 32 × BitVec 32) (count : BitVec 32),
+      increaseCount p t count = CC.Gen.Kernels.blake_increase_count_224 p t.1 t.2 count ∧
+      increaseCount p t count = CC.Gen.Kernels.blake_increase_count_256 p t.1 t.2 count) ∧
+    (∀ (p : Profile) (t : BitVec 64 × BitVec 64) (count : BitVec 64),
+      increaseCount p t count = CC.Gen.Kernels.blake_increase_count_384 p t.1 t.2 count ∧
+      increaseCount p t count = CC.Gen.Kernels.blake_increase_count_512 p t.1 t.2 count) :=
+  ⟨CC.Src.src_blake_clean, CC.Src.src_blake_put_block_u32x4, CC.Src.src_blake_put_block_u64x4,
+   fun p t c => ⟨CC.Src.src_blake_increase_count_224 p t c, CC.Src.src_blake_increase_count_256 p t c⟩,
+   fun p t c => ⟨CC.Src.src_blake_increase_count_384 p t c, CC.Src.src_blake_increase_count_512 p t c⟩⟩
 
 end CC.Thm.C04
